@@ -179,11 +179,14 @@ theorem reads_skipObjArr (c : Cfg) (o : Obj) (h : o.Fits c) (hbs : isArr o.tid =
   by_cases harr : isArr o.tid = true
   · simp only [harr, if_true] at h ⊢
     refine Reads.bind (reads_int32 c _ (hbs harr)) ?_
-    apply Reads.seekExact
-    apply byteSize_is_length
-    intro e he
-    have := fitsElem_int32 (h.2.2 e he)
-    unfold isInt32 at this; omega
+    have hlen : byteSize o.elems = ((o.elems.flatMap (elem c true)).length : Int) := by
+      apply byteSize_is_length
+      intro e he
+      have := fitsElem_int32 (h.2.2 e he)
+      unfold isInt32 at this; omega
+    have hnn : ¬ (byteSize o.elems < 0) := by rw [hlen]; omega
+    simp only [hnn, if_false]
+    exact Reads.seekExact _ _ hlen
   · simp only [harr, Bool.false_eq_true, if_false] at h ⊢
     obtain ⟨sz, hsz, hlen, hcap, hmax⟩ := h
     simp only [hsz]
